@@ -1,7 +1,8 @@
 ------------------------------ MODULE ZIndexTrace ------------------------------
 (* Trace validation for ZIndex (harness idxsim: real state machine, index DDL    *)
 (* through schema-change proposals, real HsetIndexSearch).                       *)
-(* Events: reset | w t k v | ddl t op ("ready" | "drop") err | q t v res err     *)
+(* Events: reset | w t k v | ddl t op ("ready" | "drop") err |                    *)
+(*         q t lo il hi ih res err                                               *)
 (* res = primary keys as key positions; a key of another table or an unknown     *)
 (* name is -1.                                                                   *)
 EXTENDS ZIndex, Json, IOUtils, TLC
@@ -14,7 +15,7 @@ tvars == <<val, idx, l, bad>>
 
 TInit == XInit /\ l = 1 /\ bad = FALSE
 
-Expected == IF E.ev = "q" THEN <<"search", Search(E.t, E.v), "index", idx[E.t]>> ELSE <<E.ev>>
+Expected == IF E.ev = "q" THEN <<"search", Search(E.t, E.lo, E.il, E.hi, E.ih), "index", idx[E.t]>> ELSE <<E.ev>>
 Mismatch == bad' = TRUE /\ PrintT(<<"MISMATCH", l, Expected>>) /\ UNCHANGED xvars
 
 TNext ==
@@ -26,7 +27,7 @@ TNext ==
             [] E.ev = "ddl" -> IF E.err # "" THEN Mismatch
                                ELSE IF E.op = "ready" THEN MakeReady(E.t) /\ UNCHANGED bad
                                ELSE Drop(E.t) /\ UNCHANGED bad
-            [] E.ev = "q"   -> IF idx[E.t] = "ready" /\ E.err = "" /\ E.res = Search(E.t, E.v)
+            [] E.ev = "q"   -> IF idx[E.t] = "ready" /\ E.err = "" /\ E.res = Search(E.t, E.lo, E.il, E.hi, E.ih)
                                THEN UNCHANGED <<val, idx, bad>> ELSE Mismatch
             [] OTHER        -> Mismatch
 
